@@ -6,6 +6,7 @@ import (
 	"strings"
 	"time"
 
+	sdkmath "cosmossdk.io/math"
 	sdk "github.com/cosmos/cosmos-sdk/types"
 
 	vtypes "github.com/haqq-network/haqq/x/vesting/types"
@@ -151,6 +152,14 @@ func (d *sdriver) ops(w *world.World, depth int, path []string) []engine.Op {
 				return d.grant("msgConvertInto", true, d.F, s, d.t0+so, p, res, m)
 			})
 		}
+		// backdated grant with automatic staking of what has vested of it by now (exactly that, and
+		// nothing when nothing has)
+		if len(s.vest) > 0 {
+			s := s
+			add(fmt.Sprintf("mergeConvertStake(%s,start-15)", s.name), func(p []string, res *engine.Result, m vmodel) (string, vmodel) {
+				return d.grant("msgConvertInto+stake", true, d.F, s, d.t0-15, p, res, m)
+			})
+		}
 	}
 	// grants whose lockup and vesting totals differ in a denomination one of the two does not have
 	// at all: both message kinds must refuse them (every coin of a grant needs a lockup and a vesting event)
@@ -223,17 +232,35 @@ func (d *sdriver) grant(kind string, merge bool, from sdk.AccAddress, s sched, s
 		total = rm.FromPeriods(start, s.lock).Total()
 	}
 	var msg sdk.Msg
+	stake := strings.HasSuffix(kind, "+stake")
 	if kind == "msgCreate" {
 		msg = vtypes.NewMsgCreateClawbackVestingAccount(from, d.V, st, s.lock.sdk(), s.vest.sdk(), merge)
 	} else {
-		msg = vtypes.NewMsgConvertIntoVestingAccount(from, d.V, st, s.lock.sdk(), s.vest.sdk(), merge, false, nil)
+		msg = vtypes.NewMsgConvertIntoVestingAccount(from, d.V, st, s.lock.sdk(), s.vest.sdk(), merge, stake, w.ValAddr[0])
+	}
+	bonded := func() sdkmath.Int {
+		if del, ok := w.App.StakingKeeper.GetDelegation(ctx, d.V, w.ValAddr[0]); ok {
+			if v, ok := w.App.StakingKeeper.GetValidator(ctx, w.ValAddr[0]); ok {
+				return v.TokensFromShares(del.Shares).TruncateInt()
+			}
+		}
+		return sdkmath.ZeroInt()
 	}
 	preF := w.App.BankKeeper.GetAllBalances(ctx, from)
 	preV := w.App.BankKeeper.GetAllBalances(ctx, d.V)
+	preBonded := bonded()
 	_, err := w.RunMsg(ctx, msg)
 	res.Evaluations++
+	vestedNow := sdkmath.NewIntFromBigInt(rm.FromPeriods(start, s.vest).Read(w.Header.Time.Unix()).Get(world.Denom))
 	if err != nil {
 		return engine.ErrClass(err), m
+	}
+	staked := bonded().Sub(preBonded)
+	if stake {
+		if !staked.Equal(vestedNow) {
+			d.viol(res, "create", kind, "staked-amount", "automatic staking delegated something else than what has vested of the grant", p,
+				map[string]any{"staked": staked.String(), "vested_of_grant": vestedNow.String()})
+		}
 	}
 	fn := "create"
 	if merge && m.exists {
@@ -260,7 +287,8 @@ func (d *sdriver) grant(kind string, merge bool, from sdk.AccAddress, s sched, s
 	if got := w.App.BankKeeper.GetAllBalances(ctx, from); !FromCoins(preF.Sub(got...)).Equal(total) {
 		d.viol(res, fn, kind, "amount", "the funder was not debited exactly the grant", p, nil)
 	}
-	if got := w.App.BankKeeper.GetAllBalances(ctx, d.V); !FromCoins(got.Sub(preV...)).Equal(total) {
+	// (coins delegated by the automatic staking have left the balance but not the account)
+	if got := w.App.BankKeeper.GetAllBalances(ctx, d.V).Add(sdk.NewCoin(world.Denom, staked)); !FromCoins(got.Sub(preV...)).Equal(total) {
 		d.viol(res, fn, kind, "amount", "the vesting account was not credited exactly the grant", p, nil)
 	}
 	d.checkAccount(res, fn, kind, p, nm)
